@@ -20,7 +20,7 @@ var kf *known.File
 
 func TestMain(m *testing.M) {
 	kf, _ = known.Load(ev.KnownFile())
-	rec.Rule("versions of the nine systems from the DESIGN §6 grammars (RubyGems release-only for the round trip) plus neighbour-mutated pairs; oracle = round trip Parse(Canon(v)) compares equal to v and re-canonicalises to the identical string (both showBuild values), equal canonical strings imply compare-equal, pypi.CanonVersion agrees with Parse+Canon and is the identity on unparsable text. Non-trivial: Canon(v) differs from the input text (something was normalised). Distinct = distinct (check, system, input text).")
+	rec.Rule("versions of the nine systems from the DESIGN §6 grammars (RubyGems release-only for the round trip) plus neighbour-mutated pairs; oracle = round trip Parse(Canon(v)) compares equal to v and re-canonicalises to the identical string (both showBuild values), equal canonical strings imply compare-equal, pypi.CanonVersion agrees with Parse+Canon and is the identity on unparsable text; the same round trip on wildcard patterns in the four systems whose Parse accepts them (roundtrip-wildcards; non-trivial there: the version is a pattern). Non-trivial: Canon(v) differs from the input text (something was normalised). Distinct = distinct (check, system, input text).")
 	rec.Assume("wildcard patterns accepted by Parse are round-tripped in the roundtrip-wildcards checks (four systems); the other checks leave them out")
 	rec.Assume("RubyGems versions with a prerelease segment are outside the round-trip domain (stated in the property)")
 	ev.Main(m, rec)
